@@ -65,7 +65,8 @@ CHECKS = {
             "small bounds and probed through HiGHS for larger; call histories validated state by state."),
     "C13": ("model_checking", "6/C13",
             "Lifecycle.tla (MC, and a TLAPS proof of its invariants for every optimum: proofs/Lifecycle_proofs.tla) generates every "
-            "fault schedule; injected into the real solver wrapper; traces replayed through Lifecycle's actions by Trace_Lifecycle.tla",
+            "fault schedule; injected into the real solver wrapper; traces replayed through Lifecycle's actions by Trace_Lifecycle.tla; "
+            "KModel.tla: one k-model object solved repeatedly (solve / tighten / get sequences from Gen_KModel.tla, Trace_KModel.tla)",
             "Every position x every inconclusive status (native time limit, interrupt, unknown, custom timeout) of every "
             "minimum search, nested helper searches, k-models and NumPathsOptimization; the observed invocation trace must be "
             "a behaviour of the specification and end in the specified outcome."),
